@@ -355,7 +355,7 @@ type VerifHooks struct {
 	Yield     func(label string)
 	Spawn     func()
 	Adopt     func(label string)
-	Retire    func()
+	Retire    func(panicValue interface{})
 	Now       func() time.Time
 	AfterFunc func(d time.Duration, f func()) VerifTimer
 }
@@ -383,9 +383,12 @@ func verifAdopt(label string) {
 	}
 }
 
+// verifRetire is deferred in goroutines started by instrumented go
+// statements. While a hook table is installed a panic of such a goroutine is
+// handed to the harness (which reports it) instead of killing the process.
 func verifRetire() {
 	if h := verifHooks.Load(); h != nil && h.Retire != nil {
-		h.Retire()
+		h.Retire(recover())
 	}
 }
 
